@@ -54,8 +54,8 @@ type RIdent struct {
 	V6Only bool `json:"v6only,omitempty"` // real
 	Addr   int  `json:"a"`                // local address pool index, -1 wildcard (real); raw: pool index
 	Port   int  `json:"p"`
-	Conn   bool `json:"conn,omitempty"` // real: Connect after Bind
-	CNIC   int  `json:"cnic,omitempty"` // real: interface id passed to Connect (0: none)
+	Conn   bool `json:"conn,omitempty"`   // real: Connect after Bind
+	CNIC   int  `json:"cnic,omitempty"`   // real: interface id passed to Connect (0: none)
 	Mapped bool `json:"mapped,omitempty"` // real IPv6 socket: connect to the IPv4-mapped form of an IPv4 peer
 	RAddr  int  `json:"ra"`
 	RPort  int  `json:"rp"`
@@ -86,9 +86,9 @@ type RaceCase struct {
 const inf = math.MaxInt64
 
 type phase struct {
-	id               ident
-	posFrom, posTo   int64 // possibly registered within (posFrom, posTo)
-	defFrom, defTo   int64 // certainly registered within (defFrom, defTo)
+	id             ident
+	posFrom, posTo int64 // possibly registered within (posFrom, posTo)
+	defFrom, defTo int64 // certainly registered within (defFrom, defTo)
 }
 
 type recvd struct {
